@@ -17,7 +17,7 @@ open Path
 is stored as `os.path.abspath(path)`, every OS call in `RawFileSystem` takes a `_resolve_path`
 result, and `RootEscapeError` is not a `FileNotFoundError`/`OSError` (a chain would swallow it). -/
 theorem C18_gen_ok :
-    Gen.Fsys.cfg.contain = .sepTerminated ∧ Gen.Fsys.cfg.foldSlash = true ∧ Gen.Fsys.rootIsAbspath = true ∧
+    Gen.Fsys.cfg.contain = .sepTerminated ∧ Gen.Fsys.cfg.foldSlash = true ∧ Gen.Fsys.cfg.chainRelSlash = true ∧ Gen.Fsys.rootIsAbspath = true ∧
     Gen.Fsys.osCalls.all (fun c => c.2.2) = true ∧ Gen.Fsys.osCalls.length ≥ 5 ∧
     Gen.Fsys.escapeErrorBases = ["ValueError"] := by
   decide +kernel
@@ -90,17 +90,17 @@ theorem C18_contain (k : Cfg) (hk : k.contain = .sepTerminated) (cwd : Str) (fs 
   have := h2 c this
   exact ⟨this.1, this.2.1, this.2.2.1⟩
 
-example : resolve ⟨.sepTerminated, true⟩ ['/'] ⟨['/','a','/','r'], true⟩ ['s','/','.','.','/','x']
+example : resolve ⟨.sepTerminated, true, true⟩ ['/'] ⟨['/','a','/','r'], true⟩ ['s','/','.','.','/','x']
     = .ok ['/','a','/','r','/','x'] := by decide +kernel
 
 /-- The string-prefix test (the code before the fix) accepts a sibling whose name extends the
 root's name: a concrete escape.  The separator-terminated test rejects the same input. -/
 theorem C18_prefix_bug :
-    resolve ⟨.stringPrefix, false⟩ ['/'] ⟨['/','a','/','r','o','o','t'], true⟩
+    resolve ⟨.stringPrefix, false, false⟩ ['/'] ⟨['/','a','/','r','o','o','t'], true⟩
         ['.','.','/','r','o','o','t','_','e','v','i','l','/','s']
       = .ok ['/','a','/','r','o','o','t','_','e','v','i','l','/','s']
     ∧ ¬ (comps ['/','a','/','r','o','o','t'] <+: comps ['/','a','/','r','o','o','t','_','e','v','i','l','/','s'])
-    ∧ resolve ⟨.sepTerminated, false⟩ ['/'] ⟨['/','a','/','r','o','o','t'], true⟩
+    ∧ resolve ⟨.sepTerminated, false, false⟩ ['/'] ⟨['/','a','/','r','o','o','t'], true⟩
         ['.','.','/','r','o','o','t','_','e','v','i','l','/','s'] = .error .escape := by
   decide +kernel
 
@@ -178,12 +178,12 @@ theorem C18_get_consistent (k : Cfg) (hf : k.foldSlash = true) (cwd : Str) (fs :
 /-- Without slash folding (the code before the second fix) the lookup tests one location and
 hands out a `File` naming another one, outside the root: name `\\/../f` under root `/r/s`. -/
 theorem C18_get_mismatch_bug :
-    let k : Cfg := ⟨.sepTerminated, false⟩
+    let k : Cfg := ⟨.sepTerminated, false, false⟩
     let fs : RawFS := ⟨['/','r','/','s'], true⟩
     let t : Tree := [⟨[['r'], ['s'], ['f']], 1⟩, ⟨[['f']], 2⟩]
     getFile k ['/'] fs t ['\\','/','.','.','/','f'] = .ok ['/','/','.','.','/','f']
     ∧ resolve k ['/'] fs ['/','/','.','.','/','f'] = .error .escape
-    ∧ (openName ⟨.sepTerminated, false⟩ ['/'] ⟨['/','r','/','s'], false⟩ t ['/','/','.','.','/','f']).map (·.id) = .ok 2 := by
+    ∧ (openName ⟨.sepTerminated, false, false⟩ ['/'] ⟨['/','r','/','s'], false⟩ t ['/','/','.','.','/','f']).map (·.id) = .ok 2 := by
   decide +kernel
 
 /-- **Walk.** Every file listed by `walk_folder` is a file of the tree located inside the root. -/
@@ -272,9 +272,9 @@ theorem C18_chain_walk (k : Cfg) (hk : k.contain = .sepTerminated) (cwd : Str) (
 example :
     let fs : RawFS := ⟨['/','r'], true⟩
     let t : Tree := [⟨[['r'], ['s'], ['f']], 7⟩, ⟨[['r','_','e']], 9⟩]
-    (chainOpen ⟨.sepTerminated, true⟩ ['/'] t [⟨fs, ['s']⟩] ['f']).map (·.id) = .ok 7
-    ∧ (chainOpen ⟨.sepTerminated, true⟩ ['/'] t [⟨fs, ['s']⟩] ['.','.','/','.','.','/','r','_','e']).map (·.id) = .error .escape
-    ∧ (chainOpen ⟨.stringPrefix, false⟩ ['/'] t [⟨fs, ['s']⟩] ['.','.','/','.','.','/','r','_','e']).map (·.id) = .ok 9 := by
+    (chainOpen ⟨.sepTerminated, true, true⟩ ['/'] t [⟨fs, ['s']⟩] ['f']).map (·.id) = .ok 7
+    ∧ (chainOpen ⟨.sepTerminated, true, true⟩ ['/'] t [⟨fs, ['s']⟩] ['.','.','/','.','.','/','r','_','e']).map (·.id) = .error .escape
+    ∧ (chainOpen ⟨.stringPrefix, false, false⟩ ['/'] t [⟨fs, ['s']⟩] ['.','.','/','.','.','/','r','_','e']).map (·.id) = .ok 9 := by
   decide +kernel
 
 /-- **`unify_path`.** An accepted pack path is relative (no leading slash), does not contain the
